@@ -7,7 +7,7 @@ use tea_core::prelude::*;
 
 const N: usize = 4;
 
-fn check_accessors<V: Vec1View<i32>>(v: &V, a: &[i32]) {
+pub(crate) fn check_accessors<V: Vec1View<i32>>(v: &V, a: &[i32]) {
     let n = a.len();
     assert!(GetLen::len(v) == n);
     let mut i = 0;
@@ -123,6 +123,29 @@ fn bounded_index_drivers_vecdeque() {
         let free = w > 3 && i == 2;
         assert!(r1[i].1 == i && r1[i].2 == a[i] && (free || r1[i].0 == expected_start(i, w, 3)));
         assert!(r2[i].1 == i && r2[i].2 == a[i] && (free || r2[i].0 == expected_start(i, w, 3)));
+        i += 1;
+    }
+}
+
+// ---- C07, bounded: an Arc-wrapped container answers every accessor and every overridden driver like the container inside
+// (backends_impl/arc.rs forwards each method; a forgotten or mis-forwarded one would fall back to a default body or differ here)
+#[kani::proof]
+#[kani::unwind(6)]
+fn bounded_accessors_arc() {
+    let a: [i32; 3] = [kani::any(), kani::any(), kani::any()];
+    let v = std::sync::Arc::new(a.to_vec());
+    check_accessors(&v, &a[..]);
+    let w: usize = kani::any();
+    kani::assume(1 <= w && w <= 4);
+    let r1: Vec<(Option<i32>, i32)> = v.rolling_apply(w, |rm, x| (rm, x), None).unwrap();
+    let r2: Vec<(Option<usize>, usize, i32)> = v.rolling_apply_idx(w, |s, e, x| (s, e, x), None).unwrap();
+    assert!(r1.len() == 3 && r2.len() == 3);
+    let mut i = 0;
+    while i < 3 {
+        let free = w > 3 && i == 2;
+        let st = expected_start(i, w, 3);
+        assert!(r1[i].1 == a[i] && (free || r1[i].0 == st.map(|s| a[s])));
+        assert!(r2[i].1 == i && r2[i].2 == a[i] && (free || r2[i].0 == st));
         i += 1;
     }
 }
